@@ -24,8 +24,9 @@ RULE = ("Alphabet: 33 plain line kinds + 19 hostile-text twins (same keyword / c
         "whitespace-only). E2: breadth-first search over line histories for each of the 5 entry points "
         "(parse_feature/parse_rule/parse_scenario/parse_steps/parse_tags), one real parse per history, states "
         "deduplicated by the canonical abstraction read off the real Parser object, searched until the frontier is "
-        "empty; every history is also terminated (EOF action). No-dedup: ALL sequences of <= 3 (quick) / <= 4 "
-        "(thorough) lines per entry point, which also checks that (abstract state, line kind) determines (next "
+        "empty; every history is also terminated (EOF action). No-dedup: ALL sequences of <= 3 lines over all 52 kinds "
+        "(both tiers) and, thorough, ALL sequences of exactly 4 lines over the 33 plain kinds (hostile kinds differ "
+        "from their twins in text only) per entry point, which also checks that (abstract state, line kind) determines (next "
         "abstract state, outcome class) and that no abstract state or violation class exists that the search did not "
         "find. E3: every single-line mutation (insert each of the 52 line kinds at each position, delete, duplicate, "
         "swap adjacent, 3 truncations per line) of rendered valid documents (every 20th of all feature shapes with "
@@ -35,7 +36,9 @@ RULE = ("Alphabet: 33 plain line kinds + 19 hostile-text twins (same keyword / c
         "before any step) inserted at every position where the reference acceptor calls them a fault (there: "
         "ParserError with .line == injected line); every such fault additionally with each of the 7 hostile atoms "
         "('{name}', '{}', '{', '}', '%s', '%(x)s', '%') placed in the faulty line and, separately, in the line before "
-        "it. A raised ParserError must also be printable (str()). Invariant everywhere: model/None or ParserError with 1 <= line <= number of lines, "
+        "it. The malformed tag line is also checked inside both searches (a ParserError raised for it must carry "
+        "its own line number, whatever blank / comment lines precede it) and at every position of multi-line tag texts "
+        "with blank and comment-only lines through parse_tags. A raised ParserError must also be printable (str()). Invariant everywhere: model/None or ParserError with 1 <= line <= number of lines, "
         "never another exception, at most one action call per line and pass. A history is non-trivial (counted "
         "distinct by (entry, abstract state, line kind)) when the line changes the abstract state or raises; a "
         "mutation is non-trivial when it changes the outcome of the document (counted by fault kind / mutation kind "
@@ -74,6 +77,7 @@ def bfs_expand(case):
         out, dead, s, calls, _ = ps.run_text(entry, text, len(h))
         where = "history [%s]" % ps.names_of(h)
         v = ps.invariant(entry, text, out, calls, where)
+        v += ps.fault_line_violation(entry, h, not dead0, dead, out)
         oc = ps.outclass(out, len(h))
         changed = dead or s != s0
         res.append({"case": (entry, h, "one"), "v": v,
@@ -89,8 +93,11 @@ def bfs_single(case):
     """replay form of one BFS history"""
     entry, hist = case
     text = ps.text_of(hist)
-    out, dead, s, calls, _ = ps.run_text(entry, text)
-    return {"v": ps.invariant(entry, text, out, calls, "history [%s]" % ps.names_of(hist)), "dg": (out, dead, s)}
+    pdead = ps.run_history(entry, hist[:-1])[1] if hist else True
+    out, dead, s, calls, _ = ps.run_text(entry, text, len(hist))
+    v = ps.invariant(entry, text, out, calls, "history [%s]" % ps.names_of(hist))
+    v += ps.fault_line_violation(entry, hist, not pdead, dead, out)
+    return {"v": v, "dg": (out, dead, s)}
 
 
 def run_bfs(ctx, entry):
@@ -133,7 +140,7 @@ def enum_case(case):
     ("one", entry, history): replay form"""
     if case[0] == "one":
         return bfs_single(case[1:])
-    _, entry, prefix, maxlen = case
+    _, entry, prefix, maxlen, nk, minlen = case
     counts = collections.Counter()
     viol = {}
     obs = []
@@ -151,9 +158,17 @@ def enum_case(case):
         out, dead, s, calls, _ = ps.run_text(entry, text, len(h))
         n += 1
         oc = ps.outclass(out, len(h))
+        if len(h) < minlen:             # shorter histories are executed (and counted) by another case
+            n -= 1
+            nabs = None if dead else s
+            for k in range(nk - 1, -1, -1):
+                stack.append((h + (k,), nabs, True))
+            continue
         obs.append((out, dead, s))
         counts[(entry,) + tuple(x for x in oc if not isinstance(x, int))] += 1
-        for d, msg in ps.invariant(entry, text, out, calls, "history [%s]" % ps.names_of(h)):
+        found = ps.invariant(entry, text, out, calls, "history [%s]" % ps.names_of(h))
+        found += ps.fault_line_violation(entry, h, has_parent and pabs is not None, dead, out)
+        for d, msg in found:
             key = tuple(sorted(d.items()))
             if key not in viol:
                 viol[key] = [d, msg, h, 0]
@@ -168,7 +183,7 @@ def enum_case(case):
                 nt.add(key)
         if len(h) < maxlen:
             nabs = None if dead else s
-            for k in range(NK - 1, -1, -1):
+            for k in range(nk - 1, -1, -1):
                 stack.append((h + (k,), nabs, True))
     res = []
     first = True
@@ -188,11 +203,18 @@ def enum_case(case):
 
 
 def enum_cases(entry, maxlen):
-    yield ("enum", entry, (), min(1, maxlen))
-    if maxlen >= 2:
+    """All sequences of <= 3 lines over the full alphabet (plain + hostile-text kinds); sequences of exactly
+    4 lines (thorough) over the 33 plain kinds only: hostile kinds differ from their plain twins in text alone."""
+    top = min(3, maxlen)
+    yield ("enum", entry, (), min(1, top), NK, 0)
+    if top >= 2:
         for a in range(NK):
             for b in range(NK):
-                yield ("enum", entry, (a, b), maxlen)
+                yield ("enum", entry, (a, b), top, NK, 0)
+    if maxlen >= 4:
+        for a in range(ps.PLAIN_NK):
+            for b in range(ps.PLAIN_NK):
+                yield ("enum", entry, (a, b), 4, ps.PLAIN_NK, 4)
 
 
 # ================================================================ E3: single-line mutations of valid documents
@@ -337,6 +359,14 @@ def _mutations(entry, lines, ann):
                     if prev is not None:
                         yield (("fault", p, name, atom, "prev"), lines[:p - 1] + [prev, text] + lines[p:],
                                name, p + 1, zone)
+    if entry == "tags":
+        # a malformed tag word is a fault on every line of a tag text, whatever blank / comment lines precede it
+        for p in range(L + 1):
+            text = FAULT_LINES["malformed-tag"].strip()
+            yield ("fault", p, "malformed-tag"), lines[:p] + [text] + lines[p:], "malformed-tag", p + 1, "tags"
+            for atom in ps.HOSTILE_ATOMS:
+                yield (("fault", p, "malformed-tag", atom, "line"), lines[:p] + [_hostile_line(text, atom)] + lines[p:],
+                       "malformed-tag", p + 1, "tags")
     if entry == "steps":
         for name, text in (("table-before-step", u"      | a |"), ("docstring-before-step", u'      """')):
             yield ("fault", 0, name), [text] + lines, name, 1, "start"
@@ -456,6 +486,9 @@ def e3_sources(quick):
                              "examples": [{"tags": [u"t1"], "name": u"", "table": ([u"x"], [[u"1"]])}]}]}
     yield ("doc", ("rule", rule))
     yield ("doc", ("tags", [u"@t1 @t2", u"@t3  # trailing comment", u"@t4"]))
+    yield ("doc", ("tags", [u"@t1 @t2", u"", u"# comment-only line", u"@t3  # trailing comment", u"   ", u"    # indented",
+                            u"@t4", u""]))
+    yield ("doc", ("tags", [u"", u"# c", u"@t1"]))
 
 
 # ================================================================ driver
@@ -463,7 +496,8 @@ def run(ctx):
     init_worker()
     maxlen = 3 if ctx.quick else 4
     ctx.bounds = {"line_kinds": NK, "bfs": "to fixpoint (frontier empty) for each of 5 entry points",
-                  "no_dedup_max_lines": maxlen,
+                  "no_dedup": "<= 3 lines over all %d kinds" % NK + ("" if ctx.quick else
+                                                                    "; exactly 4 lines over the %d plain kinds" % ps.PLAIN_NK),
                   "e3_documents": "every 20th feature shape <= 4 blocks" if ctx.quick else "all feature shapes <= 4 blocks"}
     bad = gr.unsafe_alphabet_report()
     ctx.guard(not bad, "rendered names/descriptions cannot be mistaken for keywords in any language %r" % (bad[:3],))
@@ -484,7 +518,8 @@ def run(ctx):
     # ---- no-dedup enumeration + validation of the abstraction
     for entry in ps.ENTRIES:
         kept = ctx.sweep(enum_case, enum_cases(entry, maxlen), chunk=16 if ctx.quick else 2,
-                         name="all sequences <= %d lines, %s" % (maxlen, entry), keep=True)
+                         name="all sequences <= 3 lines (52 kinds)%s, %s"
+                         % ("" if ctx.quick else " + 4 lines (33 kinds)", entry), keep=True)
         fn = {}
         conflicts = []
         enum_classes = set()
